@@ -834,3 +834,138 @@ def load_facts(d, config="full"):
                 continue
         crates[name] = Crate(j)
     return Facts(crates, config)
+
+
+# ----------------------------------------------------------------------------- expression trees (for guard rules)
+
+def _short(q):
+    if q is None:
+        return "?"
+    q = re.sub(r"<([^<>]*) as ([^<>]*)>", lambda m: m.group(1), q)
+    parts = q.split("::")
+    return "::".join(parts[-2:]) if len(parts) >= 2 else q
+
+
+def expr(body, o, depth=6, _seen=None):
+    """Canonical string for the value an operand/place holds, following single-definition temps.
+    e.g.  Lt(len(raw_vals),min_values(expected))"""
+    if _seen is None:
+        _seen = set()
+    if isinstance(o, dict):
+        if "int" in o:
+            return str(o["int"])
+        if "fn" in o:
+            return "fn:" + _short(body.crate.q[o["fn"]])
+        if "c" in o:
+            s = const_str(o)
+            return repr(s) if s is not None else o["c"].replace("const ", "")
+        p = op_place(o)
+    else:
+        p = o
+    l = pl_local(p)
+    proj = pl_proj(p)
+    suffix = ""
+    for el in proj:
+        if el == "*":
+            continue
+        if el.startswith("."):
+            suffix += "." + el[1:].split("@")[0]
+        elif el.startswith("as#"):
+            suffix += "#" + el.split("#")[1]
+        else:
+            suffix += el
+    name = body.local_name(l)
+    sites = body.def_sites(l)
+    whole = [s for s in sites if isinstance(s[2], int)]
+    if name and (len(whole) != 1 or 1 <= l <= body.argc):
+        return name + suffix
+    if 1 <= l <= body.argc:
+        return ("arg%d" % l) + suffix
+    if depth <= 0 or l in _seen or len(whole) != 1:
+        return (name or "_%d" % l) + suffix
+    _seen = _seen | {l}
+    (bb, idx, lhs, rhs) = whole[0]
+    if isinstance(rhs, Call):
+        c = rhs
+        nm = _short(c.callee_q or c.decl_q)
+        if c.is_(r"::deref$", r"::as_ref$", r"::borrow$", r"Option::as_deref$") and len(c.args) == 1:
+            return expr(body, c.args[0], depth, _seen) + suffix
+        return "%s(%s)%s" % (nm.split("::")[-1] if not nm.startswith("{") else nm,
+                             ",".join(expr(body, a, depth - 1, _seen) for a in c.args), suffix)
+    rv = rhs
+    k = rv["k"]
+    if k in ("use", "cast", "repeat"):
+        return expr(body, rv["op"], depth, _seen) + suffix
+    if k in ("ref", "rawptr"):
+        return expr(body, rv["place"], depth, _seen) + suffix
+    if k == "binop":
+        return "%s(%s,%s)" % (rv["op"].replace("WithOverflow", ""), expr(body, rv["a"], depth - 1, _seen), expr(body, rv["b"], depth - 1, _seen))
+    if k == "unop":
+        return "%s(%s)" % (rv["op"], expr(body, rv["a"], depth - 1, _seen))
+    if k == "discr":
+        return "discr(%s)" % expr(body, rv["place"], depth - 1, _seen)
+    if k == "agg":
+        if rv["ak"] == "adt":
+            return "%s::%s(%s)%s" % (rv["adt"].split("::")[-1], rv["variant"], ",".join(expr(body, a, depth - 1, _seen) for a in rv["ops"]), suffix)
+        return "%s(%s)%s" % (rv["ak"], ",".join(expr(body, a, depth - 1, _seen) for a in rv["ops"]), suffix)
+    return "?" + suffix
+
+
+def guards(body, bb):
+    """Conditions that hold on every path to block bb: list of (polarity, expr_string, switch_bb).
+    polarity: 'T'/'F' for bool switches; 'V<n>' / '!V<ns>' for discriminant switches."""
+    out = []
+    for i, bl in enumerate(body.blocks):
+        t = bl["term"]
+        if t["k"] != "switch" or i == bb:
+            continue
+        l = op_local(t["op"])
+        # discriminant switch?
+        dpl = None
+        for s in reversed(bl["stmts"]):
+            if s["k"] == "assign" and s["place"] == l and s["rv"]["k"] == "discr":
+                dpl = s["rv"]["place"]
+                break
+        succs = set(body.succ(i))
+        if dpl is not None:
+            e = expr(body, dpl)
+            for v, tg in t["targets"]:
+                cnt = sum(1 for v2, tg2 in t["targets"] if tg2 == tg) + (1 if t["otherwise"] == tg else 0)
+                if cnt == 1 and body.edge_dominates((i, tg), bb) and bb in body.reachable(tg):
+                    out.append(("V%d" % v, e, i))
+            tg = t["otherwise"]
+            if all(tg2 != tg for _, tg2 in t["targets"]) and body.edge_dominates((i, tg), bb) and bb in body.reachable(tg):
+                out.append(("!V" + ",".join(str(v) for v, _ in t["targets"]), e, i))
+            continue
+        if t["ty"] != "bool":
+            e = expr(body, t["op"])
+            for v, tg in t["targets"]:
+                if body.edge_dominates((i, tg), bb) and bb in body.reachable(tg) and tg != t["otherwise"]:
+                    out.append(("=%d" % v, e, i))
+            continue
+        f = None
+        for v, tg in t["targets"]:
+            if v == 0:
+                f = tg
+        tr = t["otherwise"]
+        if f is None or f == tr:
+            continue
+        e = None
+        if body.edge_dominates((i, tr), bb) and bb in body.reachable(tr):
+            e = expr(body, t["op"])
+            out.append(("T", e, i))
+        elif body.edge_dominates((i, f), bb) and bb in body.reachable(f):
+            e = expr(body, t["op"])
+            out.append(("F", e, i))
+    # normalise Not(...)
+    norm = []
+    for pol, e, i in out:
+        while pol in ("T", "F") and e.startswith("Not(") and e.endswith(")"):
+            e = e[4:-1]
+            pol = "F" if pol == "T" else "T"
+        norm.append((pol, e, i))
+    return norm
+
+
+def guard_strs(body, bb):
+    return ["%s:%s" % (p, e) for p, e, _ in guards(body, bb)]
